@@ -4,42 +4,124 @@
 // classic | HEVC enhanced-RTMP x AAC | Opus | G.711 | none; NAL units of 1 byte
 // up to 300 KiB, several per frame, AUD / SEI / in-band parameter sets,
 // composition offsets, audio spacings that make lal merge 1..16 AAC frames into
-// one PES, forward and backward timestamp jumps that stay >= the track's first
-// timestamp) into a real in-process lal.  Three kinds of consumer observe it:
-// HTTP-TS subscribers and RTSP subscribers (interleaved) joining at generated
-// points, and the HLS segment files read in record-playlist order after the
-// publisher left.  Independent demuxers (ref/tsref, ref/rtpref, ref/codecref,
-// ref/sdpref) recover the frames, which are judged against the published ones:
+// one PES, AudioSpecificConfigs of 2-5 bytes, forward and backward timestamp
+// jumps that stay >= the track's first timestamp, streams that run across the
+// roll-over of the 32-bit RTMP timestamp and streams whose PTS field passes
+// 2^33) into a real in-process lal.  Consumers: HTTP-TS subscribers, RTSP
+// subscribers with RTP interleaved and RTSP subscribers with RTP over UDP (real
+// loopback sockets) joining at generated points, and the HLS segment files read
+// in record-playlist order after the publisher left.  Independent demuxers
+// (ref/tsref, ref/rtpref, ref/codecref, ref/sdpref) recover the frames, which
+// are judged against the published ones:
 //
-//   - per track, after removing AUD, VPS/SPS/PPS and (TS, H.265) SEI from both
-//     sides, the recovered unit list equals the published list from some point
-//     to the very end: byte-identical, in order, each exactly once;
+//   - per track the recovered unit list equals the published list from some
+//     point to the very end: byte-identical, in order, each exactly once.  RTSP
+//     legs: only access-unit delimiters are removed from both sides (in-band
+//     parameter sets and SEI must arrive).  TS legs: AUD, VPS/SPS/PPS and H.265
+//     SEI are removed from both sides, and the parameter sets standing in front
+//     of every key frame must be the latest in force (sequence header or
+//     in-band group);
+//   - that point is bounded (bounds_test.go): HLS starts with the first key
+//     frame of the stream; an HTTP-TS subscriber has started by the first key
+//     frame after it was attached that certainly opens a start point; an RTSP
+//     subscriber by the first IDR / IRAP / parameter-set unit after its PLAY was
+//     processed; audio published after that frame may not be missing
+//     (signature */started-late);
 //   - TS: one PES never mixes two published frames; DTS - 90*ts is one constant
-//     per track per consumer (mod 2^33), PTS - DTS = 90*cts; an audio PES's PTS
-//     belongs to its first frame; every ADTS header agrees with the published
-//     AudioSpecificConfig and frame_length = header + frame;
-//   - RTP: timestamp = round(ts*clock/1000) mod 2^32 within one tick, clock
-//     taken from the session description; payload type as announced.
+//     per track per consumer (mod 2^33, which is continuous across the 2^32 ms
+//     roll-over because 90*2^32 = 45*2^33), PTS - DTS = 90*cts; an audio PES's
+//     PTS belongs to its first frame; every ADTS header agrees with the head of
+//     the published AudioSpecificConfig and frame_length = header + frame;
+//     continuity counters of every PID run on without a jump (HTTP-TS: all PIDs;
+//     concatenated HLS segments: the elementary-stream PIDs);
+//   - RTP: timestamp = round(ts*clock/1000) mod 2^32 within one tick, where the
+//     clock announced in the SDP must be the codec's (90000; AAC sampling rate;
+//     48000 Opus; 8000 G.711); payload type as announced.
 //
 // Deliberately NOT asserted: which frames share an audio PES, PCR values,
-// random-access flags, start-code length, where parameter sets are re-inserted,
+// random-access flags, start-code length, how often parameter sets are repeated,
 // Opus framing inside the private PES (one PES payload per published frame),
-// G.711 in TS (lal does not carry it), RTP marker bits, packetisation mode,
-// where a consumer starts (C01/C02) — only that what it got from its starting
-// point on runs to the end (each case ends with a point at which every consumer
-// kind can start, so a consumer that received nothing is reported), HLS playlist
-// content (C10), TS continuity counters / PSI syntax (C09).
+// G.711 in TS (lal does not carry it), RTP marker bits, packetisation mode, that
+// a consumer starts as early as it could (C02) — only that it has started by the
+// documented point, HLS playlist content (C10), PSI syntax (C09).  An RTSP/UDP
+// consumer is judged only when its sequence numbers are gap-free (a lost
+// datagram cannot be attributed to lal), except that a track staying completely
+// silent is reported.
 package c06
 
 import (
+	"sync"
 	"testing"
 
+	"github.com/q191201771/lal/pkg/base"
+	"github.com/q191201771/lal/pkg/mpegts"
+	"github.com/q191201771/lal/pkg/remux"
+
 	"verif/drv/pbt"
+	"verif/gen"
 )
+
+// rolloverProbe feeds lal's RTMP->TS remuxer a video-only stream that runs
+// across the 2^32 ms roll-over.  The pinned tree treats the roll-over as a jump
+// back to zero and leaves those frames unshifted (finding c06-2); while the
+// remuxer shows exactly that behaviour, cases of the "wrap" class are excluded
+// from the search (counted in excluded_known).  Any other behaviour — the fix,
+// or a faulty roll-over handling — is searched normally, and once the fix is
+// committed corpus/c06/pending-fix/*.json moves into the replayed corpus, which
+// then guards against a return of the old behaviour.
+type rolloverProbe struct{ dts []uint64 }
+
+func (o *rolloverProbe) OnPatPmt(b []byte) {}
+func (o *rolloverProbe) OnTsPackets(p []byte, f *mpegts.Frame, boundary bool) {
+	if f.Sid == mpegts.StreamIdVideo {
+		o.dts = append(o.dts, f.Dts)
+	}
+}
+
+var rolloverOnce sync.Once
+var rolloverLegacy bool
+
+func lalHandlesRollover() bool {
+	rolloverOnce.Do(func() {
+		defer func() { _ = recover() }()
+		o := &rolloverProbe{}
+		r := remux.NewRtmp2MpegtsRemuxer(o)
+		cd := gen.Codecs{Video: "avc"}
+		feed := func(it gen.Item) {
+			pl := it.Payload(cd)
+			r.FeedRtmpMessage(base.RtmpMsg{Header: base.RtmpHeader{Csid: 6, MsgLen: uint32(len(pl)), MsgTypeId: it.TypeID(), MsgStreamId: 1, TimestampAbs: it.Ts}, Payload: pl})
+		}
+		start := uint32(0xFFFFFFF0)
+		feed(gen.Item{Kind: "vsh", Ts: start})
+		for i := 0; i < 20; i++ {
+			feed(gen.Item{Kind: "video", Ts: start + uint32(2*i), Key: i == 0, Nals: []gen.NalSpec{{Hdr: []byte{0x65}, Len: 8, Seed: uint32(i), Serial: uint32(i)}}})
+		}
+		r.Dispose()
+		// exactly the pinned behaviour: every frame behind the roll-over carries its raw 90*ts, unshifted by the time
+		// base.  Anything else (the fix, but also a broken fix) is not excluded.
+		if len(o.dts) != 20 {
+			return
+		}
+		for i := 8; i < 20; i++ {
+			if o.dts[i] != 90*uint64(start+uint32(2*i)) {
+				return
+			}
+		}
+		rolloverLegacy = true
+	})
+	return !rolloverLegacy
+}
+
+func exclude(c Case) string {
+	if c.Wrap && !lalHandlesRollover() {
+		return "rtmp-timestamp-rollover: pending fix findings/c06-2 (ts|hls/video|audio/*-offset-not-constant)"
+	}
+	return ""
+}
 
 func TestRtmpToTsHlsRtsp(t *testing.T) {
 	pbt.Run(t, pbt.Spec[Case]{
-		ID: "C06", Name: "rtmp-to-ts-hls-rtsp", Gen: genCase, Run: run, Classify: classify,
-		Quick: 1000, Thorough: 7000,
+		ID: "C06", Name: "rtmp-to-ts-hls-rtsp", Gen: genCase, Run: run, Classify: classify, Exclude: exclude,
+		Quick: 700, Thorough: 6000,
 	})
 }
